@@ -1,10 +1,13 @@
 (* Proofs/C05Proof.v — every model trace is accepted by the consent monitor step5 *)
 Require Import Verif.Model.Time Verif.Base.Bytes Verif.Proofs.BytesFacts Verif.Model.Version Verif.Model.Json Verif.Model.Proto
                Verif.Model.Request Verif.Model.Env Verif.Model.SM Verif.Model.Monitors Verif.Proofs.Monitor
-               Verif.Proofs.RequestFacts.
+               Verif.Proofs.RequestFacts Verif.Proofs.MonGeneric.
 Open Scope Z_scope.
 
 Notation T := (triple step5).
+Lemma ign_ctl5 : ign_ctl step5.
+Proof. split; intros; reflexivity. Qed.
+Ltac temit := first [apply triple_emit | apply (T_yield step5 _ _ _ ign_ctl5) | (unfold yield_state; apply (T_yield step5 _ _ _ ign_ctl5))].
 
 Definition neutral (a : action) : Prop := forall q, step5 q a = Some q.
 Definition neutralM {A} (m : M A) : Prop := forall P : ph5 -> Prop, T P m (fun _ q => P q).
@@ -14,13 +17,16 @@ Proof. intro P. apply triple_ret. auto. Qed.
 Lemma neutralM_bind {A B} (m : M A) (f : A -> M B) : neutralM m -> (forall a, neutralM (f a)) -> neutralM (bind m f).
 Proof. intros Hm Hf P. eapply triple_bind; [apply Hm|]. intro a. apply Hf. Qed.
 Lemma neutralM_emit a : neutral a -> neutralM (emit a).
-Proof. intros H P. apply triple_emit. intros q Hq. exists q. split; [apply H|exact Hq]. Qed.
+Proof. intros H P. temit. intros q Hq. exists q. split; [apply H|exact Hq]. Qed.
 Lemma neutralM_silent {A} (m : M A) : silent m -> neutralM m.
 Proof. intros H P. apply triple_silent. exact H. Qed.
 Lemma neutralM_halt {A} : neutralM (@halt A).
 Proof. intro P. apply triple_halt. Qed.
 Lemma neutralM_iterM {A} (f : A -> M unit) l : (forall x, neutralM (f x)) -> neutralM (iterM f l).
 Proof. intros H P. apply triple_iterM. intros x _. apply H. Qed.
+
+Lemma neutralM_yield5 ev : neutral (AEvent ev) -> neutralM (yield_ ev).
+Proof. intros H P. apply (T_yield step5 _ _ _ ign_ctl5). intros q Hq. exists q. split; [apply H|exact Hq]. Qed.
 
 Lemma neutralM_st_write op : neutralM (st_write op).
 Proof.
@@ -99,7 +105,7 @@ Proof.
 Qed.
 Lemma neutralM_yield_state s :
   (match s with CheckingForUpdates _ | WaitingForReboot | Idle => False | _ => True end) -> neutralM (yield_state s).
-Proof. intro H. unfold yield_state. apply neutralM_emit. intro q. destruct s; try contradiction; reflexivity. Qed.
+Proof. intro H. unfold yield_state. apply neutralM_yield5. intro q. destruct s; try contradiction; reflexivity. Qed.
 
 (* ---------- builders made for a check with parameters p ---------- *)
 Definition euc_ok (p : params) (e : entry) : Prop := e_uc e = None \/ e_uc e = Some (p_disable p, p_samever p).
@@ -234,7 +240,7 @@ Proof.
   intro uri.
   eapply triple_bind; [apply (neutralM_silent _ silent_pop_http)|]. intro o.
   eapply triple_bind with (R := fun _ q => q = q1).
-  { apply triple_emit. intros q ->. exists q1. split; [|reflexivity].
+  { temit. intros q ->. exists q1. split; [|reflexivity].
     change {| w_uri := uri; w_headers := headers_of (m_cfg m) b; w_body := body_of (m_cfg m) b; w_sum := summary_of b |}
       with (wire_of (m_cfg m) b uri).
     destruct q1; cbn [req_allowed] in Hok; try contradiction; cbn [step5].
@@ -244,7 +250,7 @@ Proof.
   destruct (match m_cup m with Some _ => negb authentic | None => false end); [apply triple_ret; auto|].
   eapply triple_bind with (R := fun _ q => q = q1).
   { destruct (oZ_eqb (ps_poll (m_ps m)) (parse_retry_after ra)); [apply triple_ret; auto|].
-    eapply triple_bind; [apply (neutralM_emit (AEvent (EvProtocol _))); intro; reflexivity|]. intro.
+    eapply triple_bind; [apply (neutralM_yield5 (EvProtocol _)); intro; reflexivity|]. intro.
     eapply triple_bind; [apply neutralM_ctx_persist|]. intro.
     eapply triple_bind; [apply neutralM_st_write|]. intro. apply triple_ret. auto. }
   intro m'. destruct ((200 <=? status)%N && (status <? 300)%N); apply triple_ret; auto.
@@ -336,7 +342,7 @@ Lemma T_perform fuel p apps m :
 Proof.
   unfold perform_update_check.
   eapply triple_bind with (R := fun _ => Keep (P5Check p NoPlan)).
-  { apply triple_emit. intros q ->. exists (P5Check p NoPlan). split; [|reflexivity].
+  { temit. intros q ->. exists (P5Check p NoPlan). split; [|reflexivity].
     cbn [step5]. destruct (p_source p); reflexivity. }
   intros _. keepn (neutralM_report_check_interval (p_source p) m).
   keepn (neutralM_silent _ silent_fresh_guid).
@@ -345,19 +351,19 @@ Proof.
   destruct res as [e|[d|]].
   - ret_post.
   - (* parsed document *)
-    keepn (neutralM_emit (AEvent (EvServerResponse d)) (fun q => eq_refl)).
+    keepn (neutralM_yield5 (EvServerResponse d) (fun q => eq_refl)).
     destruct (filter SM.uc_ok (d_apps d)) as [|wu0 wur] eqn:Hwu.
     + keepn (neutralM_yield_state NoUpdateAvailable I). ret_post.
     + keepn (neutralM_silent _ silent_pop_plan).
       eapply triple_bind with (R := fun _ => Keep (P5Check p NoPlan)).
-      { apply triple_emit. intros q ->. exists (P5Check p NoPlan). split; reflexivity. }
+      { temit. intros q ->. exists (P5Check p NoPlan). split; reflexivity. }
       intros _. match goal with |- T _ (match ?pl with _ => _ end) _ => destruct pl as [plan|] end.
       2:{ keepn (neutralM_yield_state InstallingUpdate I). keepn (neutralM_yield_state InstallationError I).
           eapply triple_bind; [apply T_report_event|]. intro. ret_post. }
       keepn (neutralM_silent _ silent_pop_can_start).
       match goal with |- T _ (bind (emit (APolicy _ (PUDecision ?d))) _) _ => rename d into dec end.
       eapply triple_bind with (R := fun _ => Keep (P5Check p (match dec with UOk => Approved plan | _ => NoPlan end))).
-      { apply triple_emit. intros q ->. eexists. split; reflexivity. }
+      { temit. intros q ->. eexists. split; reflexivity. }
       intros _. destruct dec.
       * (* UOk *)
         keepn (neutralM_yield_state InstallingUpdate I).
@@ -366,10 +372,10 @@ Proof.
         keepn (neutralM_record_first_seen plan (wall t0)).
         keepas (neutralM_silent _ silent_pop_perform) as pa.
         eapply triple_bind with (R := fun _ => Keep (P5Check p (Installed plan true None))).
-        { apply triple_emit. intros q ->. eexists. split; [|reflexivity]. cbn [step5]. rewrite bytes_eqb_refl. reflexivity. }
+        { temit. intros q ->. eexists. split; [|reflexivity]. cbn [step5]. rewrite bytes_eqb_refl. reflexivity. }
         intros _.
         keepn (neutralM_iterM (fun bits => yield_ (EvProgress bits)) (pa_progress pa)
-                 (fun bits => neutralM_emit (AEvent (EvProgress bits)) (fun q => eq_refl))).
+                 (fun bits => neutralM_yield5 (EvProgress bits) (fun q => eq_refl))).
         keepas neutralM_now as t1.
         eapply triple_bind with (R := fun _ => Keep (P5Check p (Installed plan true None))).
         { match goal with |- T _ (if ?c then _ else _) _ => destruct c end.
@@ -403,7 +409,7 @@ Proof.
            intros _. keepn (neutralM_st_write SCommit).
            keepas (neutralM_silent _ silent_pop_reboot_needed) as rn.
            eapply triple_bind with (R := fun _ => Keep (P5Check p (Installed plan true (Some rn)))).
-           { apply triple_emit. intros q ->. eexists. split; [|reflexivity]. cbn [step5]. rewrite bytes_eqb_refl. reflexivity. }
+           { temit. intros q ->. eexists. split; [|reflexivity]. cbn [step5]. rewrite bytes_eqb_refl. reflexivity. }
            intros _. apply triple_ret. intros q ->. eexists. split; [reflexivity|].
            intros rs pl H. cbn [snd] in H. destruct rn; inversion H. eexists. reflexivity.
         -- (* some app failed: one installer-error event each, no reboot *)
@@ -411,7 +417,7 @@ Proof.
            { eapply triple_conseq;
                [apply (triple_iterM step5 (fun _ : unit => yield_ EvInstallerError) (repeat tt (S nerr))
                          (fun q => exists c, q = P5Check p (Installed plan c None)))| |].
-             - intros x _. apply triple_emit. intros q [c ->]. eexists. split; [reflexivity|]. exists false. reflexivity.
+             - intros x _. temit. intros q [c ->]. eexists. split; [reflexivity|]. exists false. reflexivity.
              - intros q ->. exists true. reflexivity.
              - intros u q H. exact H. }
            intros _.
@@ -460,15 +466,15 @@ Proof.
       intros plan Hp. cbn [snd] in Hp. subst rb. eapply H. reflexivity. }
   intros [[m2 result] rb].
   eapply triple_bind;
-    [apply (neutralM_emit (AEvent (EvSchedule (m_sched m2))) (fun q => eq_refl)
+    [apply (neutralM_yield5 (EvSchedule (m_sched m2)) (fun q => eq_refl)
               (fun q => exists ps, q = P5Check p ps /\ (forall plan, rb = RebootNeeded plan -> exists pl, ps = Installed pl true (Some true))))|].
   intro.
   eapply triple_bind;
-    [apply (neutralM_emit (AEvent (EvProtocol (m_ps m2))) (fun q => eq_refl)
+    [apply (neutralM_yield5 (EvProtocol (m_ps m2)) (fun q => eq_refl)
               (fun q => exists ps, q = P5Check p ps /\ (forall plan, rb = RebootNeeded plan -> exists pl, ps = Installed pl true (Some true))))|].
   intro.
   eapply triple_bind with (R := fun _ q => exists ps, q = P5After ps /\ (forall plan, rb = RebootNeeded plan -> exists pl, ps = Installed pl true (Some true))).
-  { apply triple_emit. intros q (ps & -> & H). exists (P5After ps). split; [reflexivity|]. exists ps. split; [reflexivity|exact H]. }
+  { temit. intros q (ps & -> & H). exists (P5After ps). split; [reflexivity|]. exists ps. split; [reflexivity|exact H]. }
   intro.
   eapply triple_bind; [apply (neutralM_persist_data m2)|]. intro.
   apply triple_ret. intros q H. exact H.
@@ -482,8 +488,8 @@ Proof.
   intro Hp. unfold update_next_update_time.
   eapply triple_bind; [apply (neutralM_silent _ silent_pop_next_time)|]. intro t.
   eapply triple_bind with (R := fun _ q => P q).
-  { apply triple_emit. intros q Hq. exists q. split; [|exact Hq]. specialize (Hp q Hq). destruct q; try contradiction; reflexivity. }
-  intro. match goal with |- T _ (bind (yield_ ?ev) _) _ => eapply triple_bind; [apply (neutralM_emit (AEvent ev) (fun q => eq_refl))|] end.
+  { temit. intros q Hq. exists q. split; [|exact Hq]. specialize (Hp q Hq). destruct q; try contradiction; reflexivity. }
+  intro. match goal with |- T _ (bind (yield_ ?ev) _) _ => eapply triple_bind; [apply (neutralM_yield5 ev (fun q => eq_refl))|] end.
   intro. apply triple_ret. auto.
 Qed.
 
@@ -498,7 +504,7 @@ Proof.
   unfold ask_reboot_allowed.
   eapply triple_bind; [apply (neutralM_silent _ silent_pop_reboot_allowed)|]. intro b.
   eapply triple_bind with (R := fun _ q => q = P5Reboot (Some b)).
-  { apply triple_emit. intros q [l ->]. eexists. split; reflexivity. }
+  { temit. intros q [l ->]. eexists. split; reflexivity. }
   intro. apply triple_ret. auto.
 Qed.
 
@@ -519,7 +525,7 @@ Proof.
     destruct res as [er|[d|]].
     - keepn (neutralM_persist_data (with_ps m1 (set_fails (m_ps m1) (sat_inc_u32 (ps_fails (m_ps m1)))))). apply triple_ret. auto.
     - keepn neutralM_now.
-      match goal with |- T _ (bind (yield_ ?ev) _) _ => keepn (neutralM_emit (AEvent ev) (fun q => eq_refl)) end.
+      match goal with |- T _ (bind (yield_ ?ev) _) _ => keepn (neutralM_yield5 ev (fun q => eq_refl)) end.
       match goal with |- T _ (bind (persist_data ?x) _) _ => keepn (neutralM_persist_data x) end. apply triple_ret. auto.
     - keepn (neutralM_persist_data (with_ps m1 (set_fails (m_ps m1) (sat_inc_u32 (ps_fails (m_ps m1)))))). apply triple_ret. auto. }
   destruct (HT q0 e _ Hq eq_refl) as (q' & Hq' & Hr). exists q'. split; [exact Hq'|].
@@ -529,13 +535,28 @@ Qed.
 Lemma in_reboot_not_check q : in_reboot q -> match q with P5Check _ _ => False | _ => True end.
 Proof. intros [l ->]. exact I. Qed.
 
+(* handling a request while waiting to reboot: leaves the loop only when the policy has just said yes *)
+Lemma T_handle_in_reboot id sc :
+  T in_reboot (handle_in_reboot id sc) (fun go q => if go then q = P5Reboot (Some true) else in_reboot q).
+Proof.
+  unfold handle_in_reboot.
+  eapply triple_bind; [apply (neutralM_emit (AReply id AlreadyRunning) (fun q => eq_refl))|]. intro.
+  destruct sc.
+  - eapply triple_conseq; [apply T_ask_reboot|auto|]. intros [|] q ->; [reflexivity|eexists; reflexivity].
+  - apply triple_ret. auto.
+Qed.
+
 Lemma T_reboot_loop fuel : forall src pending m,
   T in_reboot (reboot_loop fuel src pending m) (fun _ q => q = P5Reboot (Some true)).
 Proof.
   induction fuel as [|f IH]; intros src pending m; cbn [reboot_loop]; [apply triple_halt|].
   eapply triple_bind with (R := fun _ => in_reboot).
+  { apply (neutralM_silent pop_queued). intro e. unfold pop_queued. destruct (c_inq (e_cs e)); reflexivity. }
+  intros [[id sc]|].
+  { eapply triple_bind; [apply T_handle_in_reboot|]. intros [|]; [apply triple_ret; auto|apply IH]. }
+  eapply triple_bind with (R := fun _ => in_reboot).
   { apply (neutralM_silent pop_stim). intro e. unfold pop_stim. destruct (e_stim e); reflexivity. }
-  intros [i|sc].
+  intros [i|sc|].
   - destruct (nth_error pending i) as [[| |]|].
     + (* a ping-wait timer *)
       destruct (has_ping_roles (remove_nth i pending)); [apply IH|].
@@ -550,18 +571,15 @@ Proof.
       eapply triple_bind; [apply T_ask_reboot|]. intros [|].
       * apply triple_ret. auto.
       * eapply triple_bind with (R := fun _ => in_reboot).
-        { apply triple_emit. intros q ->. eexists. split; [reflexivity|]. eexists. reflexivity. }
+        { temit. intros q ->. eexists. split; [reflexivity|]. eexists. reflexivity. }
         intro. apply IH.
     + apply IH.
   - eapply triple_bind with (R := fun _ => in_reboot).
     { apply (neutralM_silent next_ctl). intro e. reflexivity. }
     intro id.
-    eapply triple_bind; [apply (neutralM_emit (AReply id AlreadyRunning) (fun q => eq_refl))|]. intro.
-    destruct sc.
-    + eapply triple_bind; [apply T_ask_reboot|]. intros [|].
-      * apply triple_ret. auto.
-      * eapply triple_conseq; [apply IH|intros q ->; eexists; reflexivity|auto].
-    + apply IH.
+    eapply triple_bind; [apply (neutralM_emit (ARequest id sc) (fun q => eq_refl))|]. intro.
+    eapply triple_bind; [apply T_handle_in_reboot|]. intros [|]; [apply triple_ret; auto|apply IH].
+  - apply IH.
 Qed.
 
 Lemma T_wait_for_reboot fuel src m :
@@ -574,7 +592,7 @@ Proof.
   eapply triple_bind with (R := fun _ q => q = P5Reboot (Some true)).
   { destruct ok; [apply triple_ret; auto|].
     eapply triple_bind with (R := fun _ => in_reboot).
-    { apply triple_emit. intros q ->. eexists. split; [reflexivity|]. eexists. reflexivity. }
+    { temit. intros q ->. eexists. split; [reflexivity|]. eexists. reflexivity. }
     intro.
     eapply triple_bind; [apply (neutralM_update_next m in_reboot in_reboot_not_check)|]. intros [m1 t].
     eapply triple_bind; [apply (neutralM_make_wait t in_reboot)|]. intro roles.
@@ -582,14 +600,11 @@ Proof.
   intro m1.
   eapply triple_bind; [apply (neutralM_silent _ silent_pop_reboot)|]. intro okr.
   eapply triple_bind with (R := fun _ q => q = P5After NoPlan).
-  { apply triple_emit. intros q ->. eexists. split; reflexivity. }
+  { temit. intros q ->. eexists. split; reflexivity. }
   intro. apply triple_ret. auto.
 Qed.
 
 (* ---------- the outer loop ---------- *)
-Lemma silent_do_outer_select roles : silent (do_outer_select roles).
-Proof. intro e. unfold do_outer_select. destruct (outer_select (e_stim e) roles (e_ctl e)) as [[[x r] c]|]; reflexivity. Qed.
-
 Lemma T_run_iteration fuel finish start_mono sr m :
   T (Keep P5Idle) (run_iteration fuel finish start_mono sr m) (fun _ => Keep P5Idle).
 Proof.
@@ -606,12 +621,12 @@ Proof.
   { intros q ->. exact I. }
   intros [m1 t].
   keepn (neutralM_make_wait t).
-  keepn (neutralM_silent _ (silent_do_outer_select a)).
+  eapply triple_bind with (R := fun _ => Keep P5Idle); [apply (T_do_outer_select step5 a (Keep P5Idle) ign_ctl5)|]. intro.
   keepn (neutralM_silent _ silent_pop_allowed).
   rename a1 into dec.
   eapply triple_bind with
     (R := fun _ => Keep (match dec with DOk p | DOkDeferred p => P5Check p NoPlan | _ => P5Idle end)).
-  { apply triple_emit. intros q ->. eexists. split; [|reflexivity]. destruct dec; reflexivity. }
+  { temit. intros q ->. eexists. split; [|reflexivity]. destruct dec; reflexivity. }
   intro.
   assert (Hneg : T (Keep P5Idle)
                    (match a0 with Some (_, id) => emit (AReply id Throttled) | None => ret tt end;;; ret (m1, sr'))
@@ -621,10 +636,13 @@ Proof.
     - intro. apply triple_ret. auto. }
   assert (Hpos : forall p, T (Keep (P5Check p NoPlan))
                    (match a0 with Some (_, id) => emit (AReply id Started) | None => ret tt end;;;
+                    enter_check;;;
                     r <- start_update_check fuel p m1;;
+                    set_incheck false;;;
+                    upg <- take_upgrade;;
                     (let '(m0, rb) := r in
                      m2 <- match rb with
-                           | RebootNeeded _ => yield_state WaitingForReboot;;; wait_for_reboot fuel match a0 with Some (s, _) => s | None => ScheduledTask end m0
+                           | RebootNeeded _ => yield_state WaitingForReboot;;; wait_for_reboot fuel (if upg then OnDemand else match a0 with Some (s, _) => s | None => ScheduledTask end) m0
                            | RebootNotNeeded => ret m0
                            end;;
                      yield_state Idle;;; ret (m2, sr')))
@@ -632,16 +650,19 @@ Proof.
   { intro p.
     eapply triple_bind with (R := fun _ => Keep (P5Check p NoPlan)).
     { destruct a0 as [[s id]|]; [apply (T_keep _ _ (neutralM_emit (AReply id Started) (fun q => eq_refl)))|apply triple_ret; auto]. }
-    intro. eapply triple_bind; [apply T_start|]. intros [m2 rb].
+    intro. eapply triple_bind with (R := fun _ => Keep (P5Check p NoPlan)); [apply (T_enter_check step5 (Keep (P5Check p NoPlan)) ign_ctl5)|]. intro.
+    eapply triple_bind; [apply T_start|]. intros [m2 rb].
+    eapply triple_bind; [apply (neutralM_silent _ (silent_set_incheck false) (post_start (m2, rb)))|]. intro.
+    eapply triple_bind; [apply (neutralM_silent _ (silent_take_upgrade) (post_start (m2, rb)))|]. intro upg.
     eapply triple_bind with (R := fun _ q => exists ps, q = P5After ps).
     { destruct rb as [plan|].
       - eapply triple_bind with (R := fun _ => Keep (P5Reboot None)).
-        { apply triple_emit. intros q (ps & -> & H). destruct (H plan eq_refl) as [pl ->]. eexists. split; reflexivity. }
+        { temit. intros q (ps & -> & H). destruct (H plan eq_refl) as [pl ->]. eexists. split; reflexivity. }
         intro. eapply triple_conseq; [apply T_wait_for_reboot|auto|]. intros x q ->. eexists. reflexivity.
       - apply triple_ret. intros q (ps & -> & _). eexists. reflexivity. }
     intro m3.
     eapply triple_bind with (R := fun _ => Keep P5Idle).
-    { apply triple_emit. intros q [ps ->]. eexists. split; reflexivity. }
+    { temit. intros q [ps ->]. eexists. split; reflexivity. }
     intro. apply triple_ret. auto. }
   destruct dec; [apply Hpos|apply Hpos|exact Hneg|exact Hneg|exact Hneg].
 Qed.
@@ -672,11 +693,11 @@ Proof.
   intro Ht. unfold run_case, accepts.
   set (m := build cfg url cup apps (e_store e)).
   destruct ep.
-  - destruct (T_run (Datatypes.S (length (e_stim e))) (4 + length (e_stim e)) m (init5 EStart) e P5Idle) as (q' & Hq' & _).
+  - destruct (T_run (Datatypes.S (length (e_stim e) + length (c_inject (e_cs e)))) (4 + length (e_stim e) + length (c_inject (e_cs e))) m (init5 EStart) e P5Idle) as (q' & Hq' & _).
     + unfold mst. rewrite Ht. reflexivity.
     + reflexivity.
     + destruct (run _ _ m e) as [r e'] eqn:E. cbn [snd] in Hq'. unfold mst in Hq'. rewrite Hq'. reflexivity.
-  - destruct (T_oneshot (4 + length (e_stim e)) m (init5 EOneshot) e (P5Check params_default NoPlan)) as (q' & Hq' & _).
+  - destruct (T_oneshot (4 + length (e_stim e) + length (c_inject (e_cs e))) m (init5 EOneshot) e (P5Check params_default NoPlan)) as (q' & Hq' & _).
     + unfold mst. rewrite Ht. reflexivity.
     + reflexivity.
     + destruct (oneshot _ m e) as [r e'] eqn:E. cbn [snd] in Hq'. unfold mst in Hq'. rewrite Hq'. reflexivity.
